@@ -335,12 +335,16 @@ func (g *flowGen) finish() {
 	p := g.p
 	p.NumFns = g.nfn
 	p.ConcurrentOK = true
+	p.GoTag = []string{"go1.21", "", "go1.20", "go1.18"}[p.nameOffset()%4]
 	for _, f := range p.AllFns() {
 		if (f.Spell == SpTop || f.Spell == SpImport || f.Spell == SpGeneric) && !f.Ctx {
 			p.ConcurrentOK = false
 		}
 	}
 	feat := map[string]bool{}
+	if p.GoTag != "" {
+		feat["file-pinned-to-older-go-release"] = true
+	}
 	for _, f := range p.AllFns() {
 		feat[fmt.Sprintf("spell%d", f.Spell)] = true
 		if f.Ctx {
